@@ -1,4 +1,5 @@
 import Hg.Proofs.CodecMain2
+import Hg.Proofs.KeyFacts
 
 namespace Hg
 namespace CodecAux
@@ -158,9 +159,14 @@ theorem step_sparse (K : Agg → Prop) (HK : CtypeOK K) (fuel : Nat) (IH : DecOK
       (fun p hp => (ub p hp).1) (fun p hp => Or.inl (ub p hp).2.symm) dbins
   have hbins := mapM_map_some bins (fun p => (p.1.toJsonKey, encodeFrag p.2 true)) (sparseItem fuel ctype cname)
     (fun p => (p.1, immut p.2)) (fun p hp => sparseItem_round fuel _ _ p (hix p hp) (hdec p hp))
+  have hnd : ((bins.map (fun p => (p.1, immut p.2))).map (·.1)).Nodup := by
+    have h1 : (bins.map (fun p => (p.1, immut p.2))).map (·.1) = keysOf bins := by
+      simp only [keysOf, List.map_map]; rfl
+    rw [h1]
+    exact KF.sortedKeys_nodup _ hsorted
   rw [dec_sparse fuel M pn e _ _ w o _ _ _ _ _ (immut nf) hkeys gw go (entriesOf?_ok _ _ gent he) hname gbt hbn
       gbins hbins gnt gn
-      (IH nf false none hgk.1 hu.1.1 (hkk (Key.nanflow, nf) (by simp)) (Or.inr ⟨rfl, rfl⟩) dn) hw hknown]
+      (IH nf false none hgk.1 hu.1.1 (hkk (Key.nanflow, nf) (by simp)) (Or.inr ⟨rfl, rfl⟩) dn) hw hknown hnd]
   rw [resolve_ok q.name pn s hn, ← immutKids_eq_map,
     foldl_insertK_sorted Key.isIdx strictOn_idx (immutKids bins) (by rw [keysOf_immutKids]; exact hidx)
       (by rw [keysOf_immutKids]; exact hsorted)]
